@@ -161,7 +161,10 @@ fn check_backend<F: Backend>(
     // each exported node is judged with the chain rule applied to the
     // operand duals of the all-nodes twin, and its value against the twin's.
     let mut r = crate::util::Rng::new(p.hash() ^ samples.len() as u64);
-    let mut subset: Vec<usize> = (0..order.len()).filter(|i| *i + 1 == order.len() || r.chance(0.35)).collect();
+    // (20% of the functions, and every width-sweep program, export the root
+    // alone: the register pressure of the expression itself)
+    let root_only = order.len() > 400 || r.chance(0.2);
+    let mut subset: Vec<usize> = (0..order.len()).filter(|i| *i + 1 == order.len() || (!root_only && r.chance(0.35))).collect();
     // the same node in more than one output slot (a Context deduplicates
     // equal expressions, so this is what exporting `f` twice looks like)
     if r.chance(0.3) {
@@ -388,6 +391,11 @@ impl Prop for C05 {
         cfg.n_outputs = 1;
         if rng.chance(0.7) {
             cfg.consts = Consts::Tame;
+        }
+        if rng.chance(0.01) {
+            cfg = GenCfg::wide_sweep(rng);
+            cfg.n_outputs = 1;
+            st.inc("width_sweep_programs");
         }
         let p = prog::generate(rng, &cfg);
         st.distinct(p.hash());
